@@ -1287,6 +1287,7 @@ class VN:
                     env.setdefault(k0, v0)
         sub = type(self)(self.model, fn, self.real, self.scalars, self.inline, self.max_depth, self.depth + 1,
                          self.call_hook, self.name_hook if is_self_call else None, self.loop_hook)
+        env.update({k0: v0 for k0, v0 in st.env.items() if k0.startswith("#len:")})      # facts about values hold in the helper too
         outs = [o_ for o_ in sub.run(fn.body, State(env, list(st.conds))) if o_.status != "raise"]
         if len(outs) > 1 and len(outs) <= 8 and all(o_.status == "return" and o_.ret is not None for o_ in outs):
             # a pure helper with several return paths: its value is the conditional expression over its own path conditions (the
@@ -1792,6 +1793,7 @@ class VN:
                     env.setdefault(k0, v0)
         sub = type(self)(self.model, fn, self.real, self.scalars, self.inline, self.max_depth, self.depth + 1,
                          self.call_hook, self.name_hook if is_self_call else None, self.loop_hook)
+        env.update({k0: v0 for k0, v0 in st.env.items() if k0.startswith("#len:")})
         all_outs = sub.run(fn.body, State(env, list(st.conds), alias=st.alias if is_self_call else None))
         outs = [o_ for o_ in all_outs if o_.status != "raise"]
         raising = [o_ for o_ in all_outs if o_.status == "raise"] if keep_raise else []
